@@ -181,15 +181,23 @@ Ltac skel_cbn :=
        upd set_in set_mark set_tokens set_flags set_ska set_lws set_fms set_adj set_ta set_ss set_se
        set_struct set_sks set_indent set_fl set_tp set_ifms].
 
-(* [rel_eq]: x1 = x2, the same expression over the skeleton fields of two related states *)
-Ltac rel_eq_with H := sr_fields H; skel_cbn; congruence.
+(* [sr_fwd H]: H : SR s1 s2; every skeleton field of s1 in the goal becomes the field of s2 *)
+Ltac sr_fwd H :=
+  rewrite ?(SR_mark _ _ H), ?(SR_tokens _ _ H), ?(SR_stream_start _ _ H), ?(SR_stream_end _ _ H),
+          ?(SR_adjacent _ _ H), ?(SR_ska _ _ H), ?(SR_sks _ _ H), ?(SR_indent _ _ H),
+          ?(SR_indents _ _ H), ?(SR_flow_level _ _ H), ?(SR_tokens_parsed _ _ H),
+          ?(SR_token_available _ _ H), ?(SR_lws _ _ H), ?(SR_fms _ _ H), ?(SR_ifms _ _ H).
+
+(* [rel_eq]: x1 = x2, the same expression over the skeleton fields of two related states.
+   (No [congruence]/[f_equal] on the 16-field record: it takes minutes.) *)
+Ltac rel_eq_with H := skel_cbn; sr_fwd H; reflexivity.
 Ltac rel_eq :=
   first [ reflexivity
         | match goal with H : SR _ _ |- _ = _ => solve [rel_eq_with H] end ].
 
 (* [rel_skel]: SR (f s1) (f s2) from a hypothesis SR s1 s2, f the same composition of setters *)
 Ltac rel_skel_with H :=
-  split; [ exact (SR_rel _ _ H) | sr_fields H; unfold erase; skel_cbn; congruence ].
+  split; [ exact (SR_rel _ _ H) | unfold erase; skel_cbn; sr_fwd H; reflexivity ].
 Ltac rel_skel :=
   match goal with
   | H : SR ?a ?b |- SR ?a ?b => exact H
